@@ -19,6 +19,7 @@ EXTERNAL_CONSTS = {'logging.DEBUG': 10, 'logging.INFO': 20, 'logging.WARNING': 3
                    're.S': 16, 're.MULTILINE': 8, 're.M': 8, 're.VERBOSE': 64, 're.X': 64, 're.ASCII': 256}
 
 # uninterpreted functions
+intval = z3.Function('intval', RefSort, z3.IntSort())             # numeric value of an int-derived object
 absval = z3.Function('absval', RefSort, z3.IntSort())       # value identity of an opaque object (== compares it)
 birth = z3.Function('birth', RefSort, z3.IntSort())         # allocation time (fresh objects > 0)
 int2str = z3.Function('int2str', z3.IntSort(), z3.StringSort())
@@ -810,17 +811,15 @@ def _int(ex, fn, args, kw, node):
         return VInt(str2int(v.t, z3.IntVal(cb)))
     if isinstance(v, VFloat):
         ex.used_assumptions.add('A-FLOAT: int(float) may raise OverflowError/ValueError for inf/nan')
-        b = z3.Bool(ex.fresh_name('isinf'))
-        ex.may_raise(b, 'OverflowError', node, kind='conv')
-        b2 = z3.Bool(ex.fresh_name('isnan'))
-        ex.may_raise(b2, 'ValueError', node, kind='conv')
-        return VInt(z3.Int(ex.fresh_name('f2i')))
+        ex.may_raise(z3.Function('isinf', FltSort, z3.BoolSort())(v.t), 'OverflowError', node, kind='conv')
+        ex.may_raise(z3.Function('isnan', FltSort, z3.BoolSort())(v.t), 'ValueError', node, kind='conv')
+        return VInt(z3.Function('float2int', FltSort, z3.IntSort())(v.t))
     if isinstance(v, VNone) or isinstance(v, VTuple) or isinstance(v, VPtr):
         ex.raise_('TypeError', node)
     if isinstance(v, VOpaque):
         info = ex.find_class(v.cls) if v.cls else None
         if info is not None and ex.is_subclass_name(v.cls, 'CIMInt'):
-            return VInt(z3.Function('intval', RefSort, z3.IntSort())(v.t))
+            return VInt(intval(v.t))
     ex.limit(f'int() of {v}', node)
 
 
@@ -1437,3 +1436,78 @@ def _partition(ex, fn, args, kw, node):
     else:
         ex.assume(z3.Implies(z3.Not(m == sep.t), z3.And(b == s_.t, a == z3.StringVal(''))))
     return VTuple([VStr(a), VStr(m), VStr(b)])
+
+
+@builtin('int.__new__')
+def _int_new(ex, fn, args, kw, node):
+    """int.__new__(cls, *args): an object of class cls whose numeric value is int(*args)."""
+    cls = ex.res(args[0])
+    v = _int(ex, VBuiltin('int'), [ex.res(a) for a in args[1:]], kw, node)
+    r = z3.Const(ex.fresh_name('intobj'), RefSort)
+    ex.assume(intval(r) == v.t)
+    ex.assume(absval(r) == v.t)
+    return VOpaque(r, cls.name if isinstance(cls, VClass) else None)
+
+
+@builtin('float.__new__')
+def _float_new(ex, fn, args, kw, node):
+    cls = ex.res(args[0])
+    _float(ex, VBuiltin('float'), [ex.res(a) for a in args[1:]], kw, node)
+    return VOpaque(z3.Const(ex.fresh_name('floatobj'), RefSort), cls.name if isinstance(cls, VClass) else None)
+
+
+@builtin('object.__new__')
+def _object_new(ex, fn, args, kw, node):
+    cls = ex.res(args[0])
+    return ex.alloc(ObjCell(cls.name, {}, dict(ex.class_specs.get(cls.name, {}))))
+
+
+@builtin('float')
+def _float(ex, fn, args, kw, node):
+    if not args:
+        return float_const(ex, 0.0)
+    v = args[0]
+    if isinstance(v, VFloat):
+        return v
+    if isinstance(v, (VInt, VBool)):
+        ex.used_assumptions.add('A-FLOAT: float(int) may raise OverflowError for huge ints')
+        big = z3.Bool(ex.fresh_name('toobig'))
+        ex.assume(z3.Implies(big, z3.Or(ex.flat(v, 'int') > 2**1023, ex.flat(v, 'int') < -2**1023)))
+        ex.may_raise(big, 'OverflowError', node, kind='conv')
+        return VFloat(z3.Function('int2float', z3.IntSort(), FltSort)(ex.flat(v, 'int')))
+    if isinstance(v, VStr):
+        c = v.concrete()
+        if c is not None:
+            try:
+                return float_const(ex, float(c))
+            except ValueError:
+                ex.raise_('ValueError', node)
+        ex.used_assumptions.add('A-FLOAT: float(str) raises only ValueError; the result may be inf or nan')
+        bad = z3.Function('float_syntax_error', z3.StringSort(), z3.BoolSort())(v.t)
+        ex.may_raise(bad, 'ValueError', node, kind='conv')
+        return VFloat(z3.Function('str2float', z3.StringSort(), FltSort)(v.t))
+    if isinstance(v, VOpaque) and v.cls and (ex.is_subclass_name(v.cls, 'CIMFloat') or ex.is_subclass_name(v.cls, 'CIMInt')):
+        return VFloat(z3.Function('obj2float', RefSort, FltSort)(v.t))
+    if isinstance(v, (VNone, VTuple, VPtr)):
+        ex.raise_('TypeError', node)
+    ex.limit(f'float() of {v}', node)
+
+
+@builtin('ord')
+def _ord(ex, fn, args, kw, node):
+    v = args[0]
+    if not isinstance(v, VStr):
+        ex.raise_('TypeError', node)
+    c = v.concrete()
+    if c is not None and len(c) == 1:
+        return VInt(ord(c))
+    ex.may_raise(z3.Length(v.t) != 1, 'TypeError', node)
+    return VInt(z3.StrToCode(v.t))
+
+
+@builtin('chr')
+def _chr(ex, fn, args, kw, node):
+    v = args[0]
+    t = ex.flat(v, 'int')
+    ex.may_raise(z3.Or(t < 0, t > 0x10FFFF), 'ValueError', node)
+    return VStr(z3.StrFromCode(t))
